@@ -546,9 +546,12 @@ fn shrink_by_subprocess(prop: &dyn Prop, tier: Tier, case: Case, hang: bool, chk
     let _ = std::fs::create_dir_all(&dir);
     let tmp = format!("{dir}/cand.json");
     let mut runs = 0u32;
+    let t0 = Instant::now();
     let mut test = |c: &Case| -> Option<Failure> {
         runs += 1;
-        if runs > 250 {
+        // bounded in runs and in wall-clock time: a candidate that is merely slow costs its
+        // whole time limit
+        if runs > 250 || t0.elapsed().as_secs() > 150 {
             return None;
         }
         let rep = Replay {
